@@ -1,5 +1,5 @@
 import RulioProofs.CronHooks
-import RulioModel.CronHooksLoc
+import RulioProofs.CronHooksLoc
 
 /-! # C15 — scheduled rules run when due, per location, and never after removal (property theorems only)
 
@@ -178,6 +178,26 @@ theorem accepted_add_registers_schedule (cfg : CronCfg) (loading : Bool)
     aGet (addCore cfg loading addFn given x now h).1.reg (keyOf cfg h.loc.name id) = some ⟨s, h.loc.name⟩ ∧
     (addCore cfg loading addFn given x now h).1.calls = h.calls ++ [["schedule", h.loc.name, id, s]] := by
   simp [addCore, hadd, hnot, hhook, hs, aGet_aSet]
+
+/-- **a top-level remove of a scheduled rule unregisters it.** When the rem hook's `Get` finds the fact and it is a rule
+with a non-empty schedule, the registry loses the rule's key in this location and exactly one `Cronner.Rem` call is made. -/
+theorem rem_unregisters_schedule (cfg : CronCfg) (quiet : Bool) (id : String) (now : Int) (h : HS)
+    (s1 : St) (fact : Obj) (sched : String)
+    (hget : h.loc.st.get id now = (s1, .ok fact)) (hs : getScheduleObj fact = .ok sched) (hne : sched ≠ "") :
+    (hRemCore cfg quiet id now h).1.reg = aErase h.reg (keyOf cfg h.loc.name id) ∧
+    (hRemCore cfg quiet id now h).1.calls = h.calls ++ [["rem", h.loc.name, id]] := by
+  simp [hRemCore, hget, hs, hne]
+
+/-- **a remove whose hook cannot get the fact is refused.** The error of the hook's `Get` (not found, expired) is the
+remove's error; no call is made to the cron, the registry is what it was, and the state is what the `Get` left
+(an expired fact is purged by it, nothing else). -/
+theorem rem_of_missing_changes_no_registration (cfg : CronCfg) (quiet : Bool) (id : String) (now : Int) (h : HS)
+    (s1 : St) (e : LErr)
+    (hget : h.loc.st.get id now = (s1, .error e)) :
+    (hRemCore cfg quiet id now h).2 = .error e ∧
+    (hRemCore cfg quiet id now h).1.reg = h.reg ∧ (hRemCore cfg quiet id now h).1.calls = h.calls ∧
+    (hRemCore cfg quiet id now h).1.loc.st = s1 := by
+  simp [hRemCore, hget]
 
 /-- the hook hypotheses are met by concrete facts: a schedule that is a number is refused, a string is accepted -/
 example : getScheduleObj [("rule", .obj [("schedule", .num 5)])] = .error "hookSchedNotString" ∧
